@@ -207,7 +207,7 @@ def windowStarts (q : Query) (holding : List Int) : List Int :=
     let hi := winStart q (endOf q)
     if hi < lo then [] else
     let n := ((hi - lo) / q.dur).toNat + 1
-    let asc := (List.range n).map fun i => lo + (i : Int) * q.dur
+    let asc := (List.range n).map fun (i : Nat) => lo + (i : Int) * q.dur
     if q.desc then asc.reverse else asc
 
 def dedupAdj [DecidableEq α] : List α → List α
